@@ -2846,6 +2846,12 @@ class AggregateBase(UnitsManaged, Saveable, OpenSystem):
                             relaxation_hamiltonian=H,
                             start=start)
 
+                # the equilibrium is defined in the EXCITON BASIS ...
+                with eigenbasis_of(Ham):
+                    dmat = DensityMatrix(data=rho0)
+                # ... and handed over in the basis current for the caller
+                rho0 = dmat.data
+
             else:
                 raise Exception("Unknown relaxation_theory_limit")
 
